@@ -83,6 +83,9 @@ fn real_main() {
             if args.iter().any(|a| a == "--clone-checks") {
                 s.clone_checks = true;
             }
+            if args.iter().any(|a| a == "--api-probe") {
+                s.api_probe = true;
+            }
             let s = scen::leak(s);
             let cfg = RunCfg {
                 threads,
